@@ -7,5 +7,5 @@ tools/confirm_seed.sh $B $P A $SA 2>&1 | grep -E "CONFIRMED|NOT|apply"
 tools/confirm_seed.sh $B $P B $SB 2>&1 | grep -E "CONFIRMED|NOT|apply"
 for s in $SA $SB; do
   [ -d seeded/$P-$s ] || continue
-  for c in $P "$@"; do tools/seedrun.sh $P-$s $c 2>&1 | tail -1 | cut -c1-230 | tee -a out/round4_before.txt; done
+  for c in $P "$@"; do tools/seedrun.sh $P-$s $c 2>&1 | tail -1 | cut -c1-230 | tee -a out/round${ROUND:-5}_before.txt; done
 done
